@@ -271,6 +271,25 @@ impl ToFeelString for Value {
   }
 }
 
+/// Returns the `JSON` string literal (quoted and escaped) for the specified text.
+pub(crate) fn json_string(text: &str) -> String {
+  let mut json = String::with_capacity(text.len() + 2);
+  json.push('"');
+  for ch in text.chars() {
+    match ch {
+      '"' => json.push_str("\\\""),
+      '\\' => json.push_str("\\\\"),
+      '\n' => json.push_str("\\n"),
+      '\r' => json.push_str("\\r"),
+      '\t' => json.push_str("\\t"),
+      c if (c as u32) < 0x20 => json.push_str(&format!("\\u{:04x}", c as u32)),
+      c => json.push(c),
+    }
+  }
+  json.push('"');
+  json
+}
+
 impl Jsonify for Value {
   /// Converts a [Value] to its `JSON` representation.
   fn jsonify(&self) -> String {
@@ -282,7 +301,7 @@ impl Jsonify for Value {
       Value::List(items) => items.jsonify(),
       Value::Number(value) => value.jsonify(),
       Value::Null(_) => "null".to_string(),
-      Value::String(s) => format!("\"{}\"", s),
+      Value::String(s) => json_string(s),
       _ => format!("jsonify not implemented for: {}", self),
     }
   }
